@@ -10,13 +10,19 @@ import AmaranthVerif.Spec.MemoryRows
             (rds (<dom|-1> (<write port index>*))*) (wrs (<dom> <gran> <enw>)*) (rdinit <int>*))`
   `state = (state (<row>*) (<read data>*) (<clk 0|1>*) (<rst 0|1>*))`     what the testbench observed
   `op    = (ev (wr (<addr> <data> <en>)*) (rd (<addr> <en>)*) (clk <0|1>*) (rst <0|1>*) <state-after>)`
-         | `(tbw (wr …) (rd …) <i> <start> <stop> <v> <state-after>)`      `ctx.set(mem[i][start:stop], v)`
+         | `(tbw (wr …) (rd …) <i> <start> <stop> <v> <state-after>)`      `ctx.set(mem[i][start:stop], v)`; `i` any integer:
+                                                                             for a row that does not exist (`Mem.tbSet`
+                                                                             rejects) the item starts with `e=IndexError`
+                                                                             and m / s / o are the unchanged state
          | `(set <state>)`                                                   continue from another state
   Every `ev`/`tbw` is evaluated **from the observed state before it** (the previous `state-after`), so every
   event of a walk is an independent one-step comparison. Response: `init=<rows>|<rd>` followed by one item
   per op, separated by `;`:
   `m=<rows>|<rd> s=<rows>|<rd> o=<rows>|<rd> rs=<0/1 per row> ds=<0/1 per read port>`
-  (m: `Mem.step`/`Mem.tbWrite` + `Mem.readData`; s: `MemRows.step`/`rowWrite` on `absState`, shown through
+  A configuration that `Mem.readPortsCheck` rejects (a transparency list naming something that is not a write port
+  of the read port's domain) is answered with `error cfg-rejected:<kind>`: the model is not evaluated on
+  configurations that the real constructor refuses.
+  (m: `Mem.step`/`Mem.tbSet` + `Mem.readData`; s: `MemRows.step`/`rowWrite` on `absState`, shown through
   `toInt`; o: `Mem.stepOld`; rs/ds: where the Spec is defined — no two ports hit one bit of the row, read in range).
 * `(enw <kind> <gran>)`  kind = `(plain <w> <u|s>)` | `(array <elem width> <length>)` | `(castable <w>)`,
   gran = `none` | `other` | int  →  `ok enw=<n> gran=<bits>` | `TypeError` | `ValueError`
@@ -117,10 +123,15 @@ def doEv (c : Cfg) (s : State) (inp : Inputs) (e : Event) : String :=
   let ds := List.zipWith (· && ·) ds (combSpecified c inp rs)
   item c inp m o sp rs ds
 
-def doTbw (c : Cfg) (s : State) (inp : Inputs) (i start stop : Nat) (v : Int) : String :=
-  let m := tbWrite c s i start stop v
-  let sp := MemRows.rowWrite (MemRows.absState c s) i start stop (MemRows.toBits (stop - start) v)
-  item c inp m m sp (s.rows.map fun _ => true) (combSpecified c inp (s.rows.map fun _ => true))
+def doTbw (c : Cfg) (s : State) (inp : Inputs) (index : Int) (start stop : Nat) (v : Int) : String :=
+  let all := s.rows.map fun _ => true
+  match tbSet c s index start stop v with
+  | .ok m =>
+    let sp := MemRows.rowWrite (MemRows.absState c s) index.toNat start stop (MemRows.toBits (stop - start) v)
+    item c inp m m sp all (combSpecified c inp all)
+  | .error e =>
+    -- no such row: nothing is read or written
+    s!"e={e} " ++ item c inp s s (MemRows.absState c s) all (combSpecified c inp all)
 
 def walkOps (c : Cfg) : State → List Sexp → List String → Option (List String)
   | _, [], acc => some acc.reverse
@@ -137,7 +148,7 @@ def walkOps (c : Cfg) : State → List Sexp → List String → Option (List Str
     | .list [.atom "tbw", wr, rd, i, a, b, v, post] => do
       let inp ← parseInputs wr rd
       let s' ← parseState post
-      walkOps c s' rest (doTbw c s inp (← i.toNat?) (← a.toNat?) (← b.toNat?) (← v.toInt?) :: acc)
+      walkOps c s' rest (doTbw c s inp (← i.toInt?) (← a.toNat?) (← b.toNat?) (← v.toInt?) :: acc)
     | _ => none
 
 def parseKind : Sexp → Option RowKind
@@ -172,6 +183,9 @@ def respond (line : String) : String :=
     match parseCfg cfg, parseState st with
     | some c, some s =>
       let i := init c
+      match readPortsCheck c.wrs c.rds with
+      | .error e => s!"error cfg-rejected:{e}"
+      | .ok _ =>
       match walkOps c s ops [] with
       | some items => s!"init={showState i.rows (readData c i ⟨[], []⟩)}" ++ String.join (items.map fun x => ";" ++ x)
       | none => "error bad-op"
